@@ -208,7 +208,7 @@ func parseNft(rs *Ruleset, text string) (*Rule, error) {
 				ng := opNeg()
 				n, ok := lookupProto(peek(0))
 				if !ok {
-					return nil, rejected("unknown protocol "+peek(0), text)
+					return nil, rejected("unknown-protocol", "unknown protocol "+peek(0), text)
 				}
 				i++
 				pn := uint8(n)
@@ -250,7 +250,7 @@ func parseNft(rs *Ruleset, text string) (*Rule, error) {
 			}
 		case "ip", "ip6":
 			if t != fam {
-				return nil, rejected("conflicting protocols specified: "+fam+" vs. "+t, text)
+				return nil, rejected("conflicting-family", "conflicting protocols specified: "+fam+" vs. "+t, text)
 			}
 			field := peek(1)
 			if field == "dscp" && peek(2) == "set" {
@@ -318,7 +318,7 @@ func parseNft(rs *Ruleset, text string) (*Rule, error) {
 				return nil, unparsed("bad address "+v, text)
 			}
 			if p.Addr().Is6() != v6 {
-				return nil, rejected("address "+v+" does not fit an "+t+" address expression", text)
+				return nil, rejected("wrong-family-address", "address "+v+" does not fit an "+t+" address expression", text)
 			}
 			addMatch(func(s *evalState) bool {
 				a := s.pkt.Dst
